@@ -541,3 +541,6 @@ def _bad(r, obs, lena):
         obs.count("bad_arguments_rejected")
     else:
         obs.fail("split-into-bins-bad-argument-accepted:" + r["bad"], "no exception")
+
+
+RULE += (" The context of every yielded histogram (besides 'variable') is compared with the context of the last value inside the edges; IterateBins is consumed by a streaming consumer that updates received contexts in place (identity walker between cells); one MapBins object meets three histograms in two runs.")
